@@ -1,7 +1,7 @@
 PLAN = dict(
     id="C15",
     pkg="c15", level="exploration",
-    rule=("One case = honest stream of (draft, rs, payload) built by refmice, ONE mutation (bit flip, truncation, appended suffix, record swap, unit swap / "
+    rule=("interleaved: 2-4 decoders (own digest each; honest, truncated or bit-flipped stream) created at drawn points and read alternately with small destination buffers in one goroutine; each must hand out only a prefix of its OWN payload and report clean EOF only after all of it (honest streams must decode). Other sub-checks: one case = honest stream of (draft, rs, payload) built by refmice, ONE mutation (bit flip, truncation, appended suffix, record swap, unit swap / "
           "duplication / removal, proof replacement, record-size field edit, re-framing (record-size field edit combined with a cut), splice with the stream of a neighbouring payload, or replacement by an "
           "arbitrary stream), decoded with the honest digest (or an arbitrary 32-octet digest) through a counting source reader and a cycled sequence of "
           "destination-buffer sizes. Oracle: the concatenated output of successive Reads is at every moment a prefix of the committed payload; a clean "
@@ -17,6 +17,7 @@ PLAN = dict(
         dict(name="exh", run="^(TestExhaustiveMutations|TestCorpus)$", shards=(1, 16), timeout=(300, 3600)),
         dict(name="rapid", run="^TestPropMutation$", checks=(15000, 500000), shards=(2, 16), timeout=(300, 3600)),
         dict(name="arb", run="^TestPropArbitrary$", checks=(20000, 500000), shards=(1, 4), timeout=(300, 3600)),
+        dict(name="live", run="^TestPropInterleaved$", checks=(3000, 200000), shards=(1, 8), timeout=(300, 3600)),
     ],
     technique="exhaustive single-mutation enumeration (every bit flip, every truncation length, structural edits) over small honest streams + rapid-generated mutations of larger streams + arbitrary streams against honest and arbitrary digests; prefix/complete-EOF oracle with a counting source reader",
     level_text=("Every single-bit flip and every truncation length of every honest stream in a lattice of small (draft, record size, payload length) "
@@ -25,7 +26,7 @@ PLAN = dict(
                 "proof octets and the size field; arbitrary streams are decoded against honest and random digests. Exploration level: multi-mutation "
                 "adversaries are explored only through splices and arbitrary streams."),
     level_note=NOTE_BASE,
-    require=[("exh", "truncate-at-record-boundary"), ("exh", "truncate-at-unit-end"), ("exh", "truncate-after-record-octets"),
+    require=[("interleaved", "lifetimes-overlap"), ("exh", "truncate-at-record-boundary"), ("exh", "truncate-at-unit-end"), ("exh", "truncate-after-record-octets"),
              ("exh", "truncate-before-full-size-last-record"),
              ("exh", "reframe-first-unit-as-final-record"), ("rapid", "reframe-first-unit-as-final-record"),
              ("exh", "rejected-at-newdecoder"), ("exh", "error-after-prefix"), ("exh", "error-after-proper-prefix"), ("exh", "clean-eof-full"),
